@@ -283,7 +283,7 @@ def crc_obs(tier):
 REPAIR_CHG = dict(region='repair_chg', file='cmdline/check.c', begin="/* reprocess the CHG blocks, for which we don't have a hash to check */", end='return 0;', end_first_after=True,
                   max_lines=70, expect_loops=1,
                   proto='static void region_repair_chg(struct snapraid_state *state, int rehash, struct failed_struct *failed, unsigned failed_count, void **buffer, void *buffer_zero)',
-                  prologue='\tunsigned j;\n\tif (1) { /* the region text starts with the last statement and the closing brace of the parity compare block */')
+                  prologue='\tunsigned j;')
 
 
 WRITEBACK = dict(region='writeback', file='cmdline/check.c', begin='/* now write recovered files */', end='/* if we are not checking, we just set the DAMAGED flag */', max_lines=110, expect_loops=3,
@@ -750,8 +750,23 @@ def staterec_obs(tier):
                note='every nanosecond value 0..999999999 and STAT_NSEC_INVALID; sputb32 replaced by a recording stub (its round trip with sgetb32 is unit stream.rt32)')]
 
 
+RUNS_WRITE = dict(region='runs_write', file='cmdline/state.c', begin='/* for all the blocks of the file */', end='++count_file;', end_first_after=True, max_lines=70, expect_loops=3,
+                  proto='static void *region_runs_write(struct snapraid_state *state, struct snapraid_disk *disk, struct snapraid_file *file, STREAM *f, void *context)',
+                  prologue='\tblock_off_t begin, idx;', epilogue='\treturn 0;')
+RUNS_READ = dict(region='runs_read', file='cmdline/state.c', scope="\t\tif (c == 'f') {", begin='/* read all the blocks */', end='/* stat */', end_first_after=True, max_lines=130, expect_loops=2,
+                 proto='static void region_runs_read(struct snapraid_state *state, struct snapraid_disk *disk, struct snapraid_file *file, STREAM *f, const char *path, block_off_t blockmax)',
+                 prologue='\tuint32_t v_idx;\n\tint c, ret;')
+
+
+def blockruns_obs():
+    return [Ob('state.f_record.blockruns.roundtrip', 'harness/h_blockruns.c', 'h_blockruns', inject=[RUNS_WRITE, RUNS_READ], unwind=18, small_path=True, timeout=1200, mem=8, cost=10, kind='bounded',
+               bound='files of at most 3 blocks, hash size 16', replay=False,
+               functions=["state_write_content: region 'f' record block runs (cmdline/state.c, extracted mechanically)", "state_read_content: region 'f' record block runs (cmdline/state.c, extracted mechanically)"],
+               note='every state (BLK / CHG / REP), hash and parity position per block; sputc / sputb32 / swrite and sgetc / sgetb32 / sread connected through a recorded event stream')]
+
+
 def c10(tier, seed):
-    return stream_obs(['h_rt32', 'h_rt64', 'h_rtle32', 'h_rtbs']) + staterec_obs(tier)
+    return stream_obs(['h_rt32', 'h_rt64', 'h_rtle32', 'h_rtbs']) + staterec_obs(tier) + blockruns_obs()
 
 
 PROPS = {
